@@ -340,6 +340,26 @@ def gen_script_rejected_first(rng):
     return sc
 
 
+def gen_script_unregistered(rng):
+    """updates that are rejected because an entry names a valid ISO code that has NOT been
+    registered as a currency: the update must not register it (seeded C16-f)"""
+    sc = gen_script(rng)
+    base = sc['base']
+    kind = rng.choice(['none', 'year', 'month', 'day'])
+    pool = [tuple(p) for p in rng.sample(BOUNDARY, 2)]
+    steps = []
+    for i in range(rng.choice([2, 3])):
+        es = [_entry(rng, base) for _ in range(rng.choice([1, 2]))]
+        if i != 1:
+            bad = _entry(rng, base)
+            bad['t'] = ['badcode', rng.choice(['CHF', 'NOK', 'SEK'])]
+            es.insert(rng.randint(0, len(es)), bad)
+        steps.append({'v': _spell(rng, kind, rng.choice(pool)), 'es': es, 'dm': sc['qdm'],
+                      'container': rng.choice(['list', 'tuple', 'gen'])})
+    sc['steps'] = steps
+    return sc
+
+
 def gen_script_clock(rng):
     """rates for two different periods, look-ups WITHOUT an explicit date before and after the
     configured default date moves from the first period to the second (or to a period without
@@ -380,6 +400,7 @@ def gen_cases(rng, tier):
     cases = [gen_script(rng, with_identity=ident) for _ in range(n)]
     cases += [gen_script_rejected_first(rng) for _ in range(max(8, n // 10))]
     cases += [gen_script_clock(rng) for _ in range(max(8, n // 10))]
+    cases += [gen_script_unregistered(rng) for _ in range(max(6, n // 12))]
     if tiny:
         cases += [gen_script(rng, with_identity=ident, tiny=True) for _ in range(max(8, n // 20))]
     return cases
